@@ -148,9 +148,10 @@ Definition prog_create_group : list string :=
   ["write_encryption_epoch_key_pairs"; "write_group_state"; "write_message_secrets"] ++ merge_writes ++
   ["save_group"; "tx:replace_group_relays"].
 Definition prog_process_welcome : list string :=
-  ["save_group"; "tx:replace_group_relays"; "save_processed_welcome"; "save_welcome"].
+  ["save_group"; "tx:replace_group_relays"; "save_welcome"; "save_processed_welcome"].   (* since the fix: the welcome first *)
 Definition prog_accept_welcome : list string :=
-  ["write_encryption_epoch_key_pairs"] ++ new_group_writes ++ ["save_welcome"; "save_group"; "tx:replace_group_relays"].
+  ["write_encryption_epoch_key_pairs"] ++ new_group_writes ++ ["save_welcome"; "save_group"; "tx:replace_group_relays";
+     (* since fix 9439c27: sync_group_metadata_from_mls *) "tx:replace_group_relays"; "save_group"].
 Definition prog_create_group_snapshot : list string := ["tx:snapshot_group_state"].
 Definition prog_rollback_group_to_snapshot : list string := ["tx:restore_group_from_snapshot"].
 Definition prog_replace_group_relays : list string := ["tx:replace_group_relays"].
